@@ -355,7 +355,10 @@ class HTTP2Connection(ConnectionInterface):
         return event
 
     def _receive_events(
-        self, request: Request, stream_id: int | None = None
+        self,
+        request: Request,
+        stream_id: int | None = None,
+        flow_stream_id: int | None = None,
     ) -> None:
         """
         Read some data from the network until we see one or more events
@@ -375,7 +378,18 @@ class HTTP2Connection(ConnectionInterface):
             # because when we call it from `_wait_for_outgoing_flow` we *do* want to
             # block until we've available flow control, event when we have events
             # pending for the stream ID we're attempting to send on.
-            if stream_id is None or not self._events.get(stream_id):
+            if flow_stream_id is not None:
+                # We're waiting for flow control credit. Another flow of control
+                # may already have received the window update while we were
+                # waiting for the read lock, in which case we must not block
+                # on the network again.
+                should_read = (
+                    self._h2_state.local_flow_control_window(flow_stream_id) <= 0
+                )
+            else:
+                should_read = stream_id is None or not self._events.get(stream_id)
+
+            if should_read:
                 events = self._read_incoming_data(request)
                 for event in events:
                     if isinstance(event, h2.events.RemoteSettingsChanged):
@@ -510,7 +524,7 @@ class HTTP2Connection(ConnectionInterface):
         max_frame_size: int = self._h2_state.max_outbound_frame_size
         flow = min(local_flow, max_frame_size)
         while flow <= 0:
-            self._receive_events(request)
+            self._receive_events(request, flow_stream_id=stream_id)
             local_flow = self._h2_state.local_flow_control_window(stream_id)
             max_frame_size = self._h2_state.max_outbound_frame_size
             flow = min(local_flow, max_frame_size)
